@@ -158,6 +158,10 @@ func run(c *engine.Ctx) {
 									continue
 								}
 								r.one("ml2", prefix+"\""+raw+"\";", kw, want, true)
+								if kw != "m:ext" && tr == "" {
+									// the same raw text occurs earlier in the file in another column
+									r.one("dup", "                contact \""+raw+"\";\n"+prefix+"\""+raw+"\";", kw, want, true)
+								}
 								if c.Quick() && (w2 != "b" && w2 != "") {
 									continue
 								}
